@@ -6,8 +6,8 @@ From GVL Require Import NList Wire.
 From GV_pipeline Require Import Model.
 Open Scope N_scope.
 
-Ltac prj := cbn [r_tcp r_setup r_ph r_active r_w r_queue r_ring r_rp r_wp r_wire r_con r_deliv r_hist r_lost r_rx r_resets upd_ctl upd_data upd_ring upd_rx].
-Ltac prjin H := cbn [r_tcp r_setup r_ph r_active r_w r_queue r_ring r_rp r_wp r_wire r_con r_deliv r_hist r_lost r_rx r_resets upd_ctl upd_data upd_ring upd_rx] in H.
+Ltac prj := cbn [r_tcp r_setup r_ph r_active r_w r_queue r_wire r_con r_deliv r_hist r_lost r_rx r_resets upd_ctl upd_data upd_rx].
+Ltac prjin H := cbn [r_tcp r_setup r_ph r_active r_w r_queue r_wire r_con r_deliv r_hist r_lost r_rx r_resets upd_ctl upd_data upd_rx] in H.
 
 (* ---------- small list facts ---------- *)
 Lemma nnth_Some_lt {A} (l : list A) i x : nnth i l = Some x -> i < nlen l.
@@ -162,7 +162,6 @@ Definition ordered_part (r : rstate) : list dentry := nl_d (r_deliv r).
 Record rinv (c : cfg) (W : wlist) (r : rstate) : Prop := mkRinv {
   ri_su : NoDup (map snd (r_setup r));
   ri_q : Forall (item_ok c W (r_setup r)) (r_queue r) /\ Forall (fun x => i_late x = false) (r_queue r);
-  ri_r : Forall (item_ok c W (r_setup r)) (ritems (r_ring r)) /\ Forall (fun x => i_late x = true) (ritems (r_ring r));
   ri_w : Forall (item_ok c W (r_setup r)) (r_wire r);
   ri_d : Forall (dentry_ok c W) (r_deliv r);
   ri_inc : inc_mf (ordered_part r);
@@ -170,57 +169,14 @@ Record rinv (c : cfg) (W : wlist) (r : rstate) : Prop := mkRinv {
   ri_cap : nlen (r_queue r) <= c_Q c;
   ri_ph : ph_inv r;
   ri_cons : forall n, cnt n (r_hist r) =
-     (cnt n (didxs (r_deliv r)) + cnt n (r_lost r) + cnt n (idxs (r_wire r)) + cnt n (idxs (r_queue r))
-      + cnt n (idxs (ritems (r_ring r))))%nat;
+     (cnt n (didxs (r_deliv r)) + cnt n (r_lost r) + cnt n (idxs (r_wire r)) + cnt n (idxs (r_queue r)))%nat;
   ri_hist : Forall (fun i => i < nlen W) (r_hist r) /\ sinc (r_hist r);
-  ri_ropen : (forall b, r_w r <> WClosed b) -> ritems (r_ring r) = [];
+  ri_nl : Forall (fun x => i_late x = false) (r_wire r) /\ (r_tcp r = true -> Forall (fun d => d_late d = false) (r_deliv r));
   ri_udp : r_tcp r = false -> r_resets r = 0 -> Forall (fun d => d_late d = false) (r_deliv r);
   ri_rx : r_tcp r = false -> r_resets r = 0 -> forall d, In d (r_deliv r) ->
           exists last neg, rx_get (r_rx r) (d_m d) (d_f d) = Some (last, neg) /\ d_idx d <= last }.
 
 Definition sinv (c : cfg) (st : state) : Prop := Forall (rinv c (s_written st)) (s_readers st).
-
-(* ---------- ring slots ---------- *)
-Lemma ritems_repeat k : ritems (repeat None k) = [].
-Proof. induction k; cbn; auto. Qed.
-Lemma ritems_nrep n : ritems (nrep None n) = [].
-Proof. rewrite nrep_repeat. apply ritems_repeat. Qed.
-
-Lemma ritems_nset_some ring i x :
-  nnth i ring = Some None ->
-  (forall n, cnt n (idxs (ritems (nset i (Some x) ring))) = (cnt n [i_idx x] + cnt n (idxs (ritems ring)))%nat) /\
-  (forall P : item -> Prop, P x -> Forall P (ritems ring) -> Forall P (ritems (nset i (Some x) ring))).
-Proof.
-  revert i; induction ring as [|o t IH]; intros i H; cbn [nnth] in H; [discriminate|].
-  cbn [nset]. destruct (N.eqb_spec i 0) as [Hi|Hi].
-  - inversion H; subst o. cbn [ritems]. split.
-    + intros n. cbn [idxs map]. now rewrite (cnt_cons n (i_idx x)).
-    + intros P Hx HF. now constructor.
-  - destruct (IH _ H) as (IH1 & IH2). destruct o as [y|]; cbn [ritems].
-    + split.
-      * intros n. cbn [idxs map]. rewrite (cnt_cons n (i_idx y)), (cnt_cons n (i_idx y) (map i_idx (ritems t))).
-        specialize (IH1 n). unfold idxs in IH1. lia.
-      * intros P Hx HF. inversion HF; subst. constructor; auto.
-    + split; auto.
-Qed.
-
-Lemma ritems_nset_none ring i x :
-  nnth i ring = Some (Some x) ->
-  (forall n, cnt n (idxs (ritems ring)) = (cnt n [i_idx x] + cnt n (idxs (ritems (nset i None ring))))%nat) /\
-  (forall P : item -> Prop, Forall P (ritems ring) -> P x /\ Forall P (ritems (nset i None ring))).
-Proof.
-  revert i; induction ring as [|o t IH]; intros i H; cbn [nnth] in H; [discriminate|].
-  cbn [nset]. destruct (N.eqb_spec i 0) as [Hi|Hi].
-  - inversion H; subst o. cbn [ritems]. split.
-    + intros n. cbn [idxs map]. now rewrite (cnt_cons n (i_idx x)).
-    + intros P HF. now inversion HF.
-  - destruct (IH _ H) as (IH1 & IH2). destruct o as [y|]; cbn [ritems].
-    + split.
-      * intros n. cbn [idxs map]. rewrite (cnt_cons n (i_idx y)), (cnt_cons n (i_idx y) (map i_idx (ritems (nset (N.pred i) None t)))).
-        specialize (IH1 n). unfold idxs in IH1. lia.
-      * intros P HF. inversion HF; subst. destruct (IH2 P H3). split; auto.
-    + split; auto.
-Qed.
 
 Lemma nl_i_snoc l x : nl_i (l ++ [x]) = nl_i l ++ (if i_late x then [] else [x]).
 Proof. unfold nl_i. rewrite filter_app. cbn [filter]. now destruct (i_late x). Qed.
@@ -246,9 +202,8 @@ Proof. intros H. eapply Forall_impl; [|exact H]. intros; now apply item_ok_mono.
 
 Lemma rinv_mono c W e r : rinv c W r -> rinv c (W ++ [e]) r.
 Proof.
-  intros [H1 (H2 & H2') (Hr & Hr') H3 H4 H5 H6 H7 H8 H9 (H10 & H10') H11 H12 H13]. constructor; auto.
+  intros [H1 (H2 & H2') H3 H4 H5 H6 H7 H8 H9 (H10 & H10') Hnl H12 H13]. constructor; auto.
   - split; [now apply items_mono|exact H2'].
-  - split; [now apply items_mono|exact Hr'].
   - now apply items_mono.
   - eapply Forall_impl; [|exact H4]. intros; now apply dentry_ok_mono.
   - split; [|exact H10']. eapply Forall_impl; [|exact H10]. intros a Ha. cbv beta in Ha. rewrite nlen_app. cbn [nlen]. lia.
@@ -258,11 +213,9 @@ Qed.
 Lemma rinv_ctl_same c W r ph a w con :
   rinv c W r ->
   ph_inv (upd_ctl r ph a w con) ->
-  ((forall b, r_w r <> WClosed b) \/ w = r_w r) ->
   rinv c W (upd_ctl r ph a w con).
 Proof.
-  intros [H1 H2 Hr H3 H4 H5 H6 H7 H8 H9 H10 H11 H12 H13] Hp Hw. constructor; prj; auto.
-  intros Hn. destruct Hw as [Hw| ->]; auto.
+  intros [H1 H2 H3 H4 H5 H6 H7 H8 H9 H10 Hnl H12 H13] Hp. constructor; prj; auto.
 Qed.
 
 Lemma idxs_app a b : idxs (a ++ b) = idxs a ++ idxs b.
@@ -271,21 +224,21 @@ Lemma didxs_app a b : didxs (a ++ b) = didxs a ++ didxs b.
 Proof. apply map_app. Qed.
 
 Ltac phi := unfold ph_inv; prj; auto; try (intros; discriminate).
-Ltac fin H5 H11 := try (unfold ordered_part in *; prj; exact H5); try (intros _; apply H11; intros; discriminate).
+Ltac fin H5 := try (unfold ordered_part in *; prj; exact H5).
 Ltac nc E := left; intros ?; rewrite E; discriminate.
 
 Lemma rinv_ctl c W k r r' : rinv c W r -> r_ctl c k r = Some r' -> rinv c W r'.
 Proof.
-  intros Hi H. pose proof Hi as [H1 (H2 & H2') (Hr & Hr') H3 H4 H5 H6 H7 H8 H9 (H10 & H10') H11 H12 H13].
+  intros Hi H. pose proof Hi as [H1 (H2 & H2') H3 H4 H5 H6 H7 H8 H9 (H10 & H10') Hnl H12 H13].
   destruct k; cbn [r_ctl] in H.
   - (* playreq *) unfold r_playreq in H. destruct (r_ph r), (r_w r) eqn:Ew; try discriminate.
     destruct (r_active r); [discriminate|]. inversion H; subst. apply rinv_ctl_same; auto. phi.
   - unfold r_create in H. destruct (r_ph r), (r_w r) eqn:Ew; try discriminate.
-    inversion H; subst. apply rinv_ctl_same; auto; [phi|nc Ew].
+    inversion H; subst. apply rinv_ctl_same; auto; phi.
   - unfold r_activate in H. destruct (r_ph r), (r_w r) as [|st|st] eqn:Ew; try discriminate.
     destruct (r_tcp r || st); [|discriminate]. inversion H; subst. apply rinv_ctl_same; auto. phi.
   - unfold r_start in H. destruct (r_w r) as [|[|]|] eqn:Ew; try discriminate.
-    inversion H; subst. apply rinv_ctl_same; auto; [|nc Ew].
+    inversion H; subst. apply rinv_ctl_same; auto.
     unfold ph_inv in *. prj. destruct (r_ph r); auto; try discriminate.
     destruct H8 as (Ha & _). split; eauto.
   - unfold r_playdone in H. destruct (r_ph r), (r_w r) as [|st|st] eqn:Ew; try discriminate.
@@ -293,37 +246,31 @@ Proof.
     unfold ph_inv; prj. split; eauto.
   - unfold r_stopreq in H. destruct (r_ph r); try discriminate; inversion H; subst;
       apply rinv_ctl_same; auto; phi.
-  - (* drain *) unfold r_drain in H. destruct (r_w r) as [|[|]|[|]] eqn:Ew; try discriminate.
-    + destruct (r_queue r) as [|x q] eqn:Eq; [discriminate|]. inversion H; subst.
-      inversion H2; subst. inversion H2'; subst. constructor; prj; auto; fin H5 H11.
-      * apply Forall_app; split; auto.
-      * intros Ht. specialize (H6 Ht). rewrite nl_i_snoc. match goal with Hl : i_late x = false |- _ => rewrite Hl end.
+  - (* drain: the same FIFO step whether the writer is still attached or already detached *)
+    unfold r_drain in H.
+    assert (Hd : forall x q, r_queue r = x :: q ->
+              rinv c W (upd_data r q (r_wire r ++ [x]) (r_deliv r) (r_hist r) (r_lost r))).
+    { intros x q Eq. rewrite Eq in *. inversion H2; subst. inversion H2'; subst. destruct Hnl as (Hnl1 & Hnl2).
+      constructor; prj; auto; fin H5.
+      - apply Forall_app; split; auto.
+      - intros Ht. specialize (H6 Ht). rewrite nl_i_snoc. match goal with Hl : i_late x = false |- _ => rewrite Hl end.
         rewrite idxs_app. cbn [idxs map app] in *. now rewrite <- !app_assoc.
-      * cbn [nlen] in H7. lia.
-      * intros n. rewrite (H9 n), idxs_app, !cnt_app. cbn [idxs map].
+      - cbn [nlen] in H7. lia.
+      - intros n. rewrite (H9 n), idxs_app, !cnt_app. cbn [idxs map].
         rewrite (cnt_cons n (i_idx x) (map i_idx q)). unfold idxs. lia.
-    + destruct (nnth (r_rp r) (r_ring r)) as [[x|]|] eqn:En; try discriminate. inversion H; subst.
-      destruct (ritems_nset_none _ _ _ En) as (C1 & C2).
-      destruct (C2 _ Hr) as (Hx & Hr2). destruct (C2 _ Hr') as (Hx' & Hr2').
-      constructor; prj; auto; fin H5 H11.
-      * apply Forall_app; split; auto.
-      * intros Ht. specialize (H6 Ht). rewrite nl_i_snoc, Hx'. now rewrite app_nil_r.
-      * intros n. rewrite (H9 n), (C1 n), idxs_app, !cnt_app. cbn [idxs map]. unfold idxs. lia.
-      * intros Hn. exfalso. apply (Hn true). exact Ew.
-  - (* closew *) unfold r_closew in H. destruct (r_ph r) eqn:Ep, (r_w r) as [|st|st] eqn:Ew; try discriminate.
-    inversion H; subst. constructor; prj; auto; fin H5 H11.
-    + rewrite ritems_nrep. split; constructor.
+      - split; [|exact Hnl2]. apply Forall_app; split; auto. }
+    destruct (r_w r) as [|[|]|[|]] eqn:Ew; try discriminate;
+      (destruct (r_queue r) as [|x q] eqn:Eq; [discriminate|]; inversion H; subst; now apply Hd).
+  - (* closew = detach: nothing but the writer state changes *)
+    unfold r_closew in H. destruct (r_ph r) eqn:Ep, (r_w r) as [|st|st] eqn:Ew; try discriminate.
+    inversion H; subst. apply rinv_ctl_same; auto. phi.
+  - (* nilw = Close(): what is still queued is dropped *)
+    unfold r_nilw in H. destruct (r_ph r) eqn:Ep, (r_w r) as [|st|st] eqn:Ew; try discriminate.
+    inversion H; subst. constructor; prj; auto; fin H5.
     + intros Ht. specialize (H6 Ht). cbn [idxs map]. rewrite app_nil_r. rewrite app_assoc in H6. now apply sinc_drop_tail in H6.
     + cbn [nlen]. lia.
     + phi.
-    + intros n. rewrite (H9 n), !cnt_app, ritems_nrep. rewrite (H11 ltac:(intros b; discriminate)).
-      cbn [idxs map cnt count_occ]. lia.
-    + intros Hn. apply ritems_nrep.
-  - (* nilw *) unfold r_nilw in H. destruct (r_ph r) eqn:Ep, (r_w r) as [|st|st] eqn:Ew; try discriminate.
-    inversion H; subst. constructor; prj; auto; fin H5 H11.
-    + cbn [ritems]. split; constructor.
-    + phi.
-    + intros n. rewrite (H9 n), !cnt_app. cbn [ritems idxs map cnt count_occ]. lia.
+    + intros n. rewrite (H9 n), !cnt_app. cbn [idxs map cnt count_occ]. lia.
   - unfold r_deact in H. destruct (r_ph r) eqn:Ep; try discriminate. inversion H; subst.
     apply rinv_ctl_same; auto. phi.
   - unfold r_stopdone in H. destruct (r_ph r), (r_w r) eqn:Ew; try discriminate.
@@ -331,10 +278,11 @@ Proof.
     destruct (r_tcp r); [destruct (r_wire r); [|discriminate]|]; inversion H; subst;
       apply rinv_ctl_same; auto; phi.
   - (* cclose *) unfold r_cclose in H. destruct (r_ph r) eqn:Ep; try discriminate.
-    inversion H; subst. constructor; prj; auto; fin H5 H11.
+    inversion H; subst. constructor; prj; auto; fin H5.
     + intros Ht. specialize (H6 Ht). cbn [nl_i filter idxs map app]. now apply sinc_drop_mid in H6.
     + phi.
     + intros n. rewrite (H9 n), !cnt_app. cbn [idxs map cnt count_occ]. lia.
+    + destruct Hnl as (_ & Hnl2). split; [constructor|exact Hnl2].
 Qed.
 
 (* ---------- arrival, loss ---------- *)
@@ -410,7 +358,7 @@ Qed.
 
 Lemma rinv_arrive c W i r r' od : rinv c W r -> r_arrive c i r = Some (r', od) -> rinv c W r'.
 Proof.
-  intros Hi H. pose proof Hi as [H1 (H2 & H2') (Hr & Hr') H3 H4 H5 H6 H7 H8 H9 (H10 & H10') H11 H12 H13].
+  intros Hi H. pose proof Hi as [H1 (H2 & H2') H3 H4 H5 H6 H7 H8 H9 (H10 & H10') Hnl H12 H13].
   unfold r_arrive in H. destruct (r_con r); cbn [negb] in H; [|discriminate].
   destruct (r_tcp r && negb (i =? 0)) eqn:Eti; [discriminate|].
   destruct (take_nth i (r_wire r)) as [[x wi]|] eqn:Et; [|discriminate].
@@ -419,6 +367,11 @@ Proof.
   { intros Ht. rewrite Ht in Eti. cbn in Eti. destruct (N.eqb_spec i 0) as [->|]; [|discriminate].
     now apply nlen_nil_iff. }
   rewrite Ew in H3. apply Forall_app in H3. destruct H3 as (H3a & H3b). inversion H3b as [|? ? Hx H3b']; subst.
+  destruct Hnl as (Hnl1 & Hnl2).
+  assert (Hnla : Forall (fun y => i_late y = false) (a ++ b) /\ i_late x = false).
+  { rewrite Ew in Hnl1. apply Forall_app in Hnl1. destruct Hnl1 as (Q1 & Q2). inversion Q2; subst.
+    split; [apply Forall_app; split; assumption|assumption]. }
+  destruct Hnla as (Hnla & Hxl).
   assert (Hdrop : rinv c W (upd_data r (r_queue r) (a ++ b) (r_deliv r) (r_hist r) (r_lost r ++ [i_idx x]))).
   { constructor; prj; auto.
     - apply Forall_app; auto.
@@ -432,8 +385,7 @@ Proof.
   assert (D4' : forall late, dentry_ok c W (mkD (i_m x) (i_f x) (i_idx x) late (i_pkt x))).
   { intros late. destruct D4 as (p0 & fs' & s' & E1 & E2). exists p0, fs', s'. exact (conj E1 E2). }
   assert (Hcons : forall n, cnt n (r_hist r) =
-     (cnt n (didxs (r_deliv r) ++ [i_idx x]) + cnt n (r_lost r) + cnt n (idxs (a ++ b)) + cnt n (idxs (r_queue r))
-      + cnt n (idxs (ritems (r_ring r))))%nat).
+     (cnt n (didxs (r_deliv r) ++ [i_idx x]) + cnt n (r_lost r) + cnt n (idxs (a ++ b)) + cnt n (idxs (r_queue r)))%nat).
   { intros n. rewrite (H9 n), Ew, !idxs_app, !cnt_app. cbn [idxs map].
     rewrite (cnt_cons n (i_idx x) (map i_idx b)). unfold idxs. lia. }
   destruct (r_tcp r) eqn:Et'.
@@ -452,6 +404,8 @@ Proof.
       destruct (i_late x); cbn [negb] in H6; [now rewrite app_nil_r|].
       rewrite didxs_app. cbn [idxs map didxs d_idx app] in *. now rewrite <- app_assoc.
     + intros n. rewrite didxs_app. exact (Hcons n).
+    + split; [exact Hnla|]. intros _. apply Forall_app; split; [now apply Hnl2|].
+      constructor; [|constructor]. cbn [d_late]. exact Hxl.
   - (* UDP: the receiver's filter *)
     assert (Hdeliver : forall resets,
       (resets = r_resets r /\
@@ -476,6 +430,7 @@ Proof.
         rewrite Hm, Hf in Hg.
         destruct Hrx as [Hn|(last' & neg' & Hg' & Hlt)]; [congruence|]. rewrite Hg in Hg'. inversion Hg'; subst. lia.
       - intros n. rewrite didxs_app. exact (Hcons n).
+      - split; [exact Hnla|intros; congruence].
       - intros _ Hz. apply Forall_app; split; [apply H12; auto; destruct Hres as [(-> & _)| ->]; lia|].
         constructor; [|constructor]. cbn [d_late]. subst resets. reflexivity.
       - intros _ Hz. destruct Hres as [(Hr0 & Hrx)|Hr0]; [|lia]. subst resets.
@@ -490,7 +445,7 @@ Proof.
       * destruct (c_B c <? neg + 1).
         -- inversion H; subst. apply Hdeliver. now right.
         -- inversion H; subst. cbn [fst].
-           pose proof Hdrop as [K1 K2 K3 K4 K5 K6 K7 K8 K9 K10 K11 K12 K13 K14].
+           pose proof Hdrop as [K1 K2 K4 K5 K6 K7 K8 K9 K10 K11 Knl K13 K14].
            constructor; prj; auto. intros Ht Hz.
            apply (rx_cover_set (r_deliv r) (r_rx r) (i_m x) (i_f x) (last, neg + 1)); auto.
            intros d l' n' Hd Hm Hf Hg Hle. cbn [fst]. rewrite Eg in Hg. inversion Hg; subst. exact Hle.
@@ -499,16 +454,18 @@ Qed.
 
 Lemma rinv_lose c W i r r' : rinv c W r -> r_lose i r = Some r' -> rinv c W r'.
 Proof.
-  intros Hi H. pose proof Hi as [H1 (H2 & H2') (Hr & Hr') H3 H4 H5 H6 H7 H8 H9 (H10 & H10') H11 H12 H13].
+  intros Hi H. pose proof Hi as [H1 (H2 & H2') H3 H4 H5 H6 H7 H8 H9 (H10 & H10') Hnl H12 H13].
   unfold r_lose in H. destruct (r_tcp r) eqn:Et; [discriminate|].
   destruct (take_nth i (r_wire r)) as [[x wi]|] eqn:E; [|discriminate].
   destruct (take_nth_split _ _ _ _ E) as (a & b & Ew & -> & Hla). inversion H; subst.
   rewrite Ew in H3. apply Forall_app in H3. destruct H3 as (H3a & H3b). inversion H3b; subst.
-  constructor; prj; auto; fin H5 H11.
+  constructor; prj; auto; fin H5.
   - apply Forall_app; auto.
   - intros Ht. congruence.
   - intros n. rewrite (H9 n), Ew, !idxs_app, !cnt_app. cbn [idxs map].
     rewrite (cnt_cons n (i_idx x) (map i_idx b)). unfold idxs. lia.
+  - destruct Hnl as (Hnl1 & Hnl2). split; [|intros; congruence]. rewrite Ew in Hnl1. apply Forall_app in Hnl1.
+    destruct Hnl1 as (Q1 & Q2). inversion Q2; subst. apply Forall_app; split; assumption.
 Qed.
 
 (* ---------- write ---------- *)
@@ -521,7 +478,7 @@ Proof.
   intros Hi Hm Hf H. unfold r_push in H.
   destruct (r_active r); [|inversion H; subst; now apply rinv_mono].
   destruct (chan_of (r_setup r) m) as [ch|] eqn:Ech; [|inversion H; subst; now apply rinv_mono].
-  pose proof Hi as [_ (G2 & _) _ G3 G4 _ G6 _ _ _ (G10 & _) _ _ _].
+  pose proof Hi as [_ (G2 & _) G3 G4 _ G6 _ _ _ (G10 & _) _ _ _].
   assert (Hnew : forall late, item_ok c (W ++ [(m, f, p)]) (r_setup r) (mkItem ch m f (nlen W) late (set_ssrc p s))).
   { intros late. exists p, fs, s. cbn [i_idx i_m i_f i_pkt i_chan]. split; [apply nnth_app_len|auto]. }
   assert (Hhist : forall h, Forall (fun i => i < nlen W) h -> sinc h ->
@@ -532,10 +489,10 @@ Proof.
       + constructor; [|constructor]. rewrite nlen_app. cbn [nlen]. lia.
     - apply sinc_snoc. split; assumption. }
   apply (rinv_mono _ _ (m, f, p)) in Hi.
-  pose proof Hi as [H1 (H2 & H2') (Hr & Hr') H3 H4 H5 H6 H7 H8 H9 (H10 & H10') H11 H12 H13].
+  pose proof Hi as [H1 (H2 & H2') H3 H4 H5 H6 H7 H8 H9 (H10 & H10') Hnl H12 H13].
   destruct (r_w r) as [|st|st] eqn:Ew; [inversion H; subst; exact Hi| |].
   - destruct (nlen (r_queue r) <? c_Q c) eqn:Elt; inversion H; subst; [|exact Hi].
-    constructor; prj; auto; fin H5 H11.
+    constructor; prj; auto; fin H5.
     + split; apply Forall_app; split; auto.
     + intros Ht. specialize (G6 Ht). rewrite idxs_app, !app_assoc. cbn [idxs map i_idx].
       apply sinc_snoc. split; [now rewrite <- !app_assoc|].
@@ -545,11 +502,7 @@ Proof.
       * now apply items_idx_lt in G2.
     + rewrite nlen_app. cbn [nlen]. lia.
     + intros n. rewrite idxs_app, !cnt_app, (H9 n). cbn [idxs map i_idx]. lia.
-  - destruct (nnth (r_wp r) (r_ring r)) as [[y|]|] eqn:En; inversion H; subst; try exact Hi.
-    destruct (ritems_nset_some _ _ (mkItem ch m f (nlen W) true (set_ssrc p s)) En) as (C1 & C2).
-    constructor; prj; auto; fin H5 H11.
-    + intros n. rewrite !cnt_app, (H9 n), (C1 n). cbn [i_idx]. lia.
-    + intros Hn. exfalso. apply (Hn st). exact Ew.
+  - (* detached writer: nothing is pushed *) inversion H; subst. exact Hi.
 Qed.
 
 (* ---------- lifting to the reader list ---------- *)
